@@ -113,7 +113,14 @@ def gen_script(rng, localraw, ifs, nops, focus):
         qs = []
         for _ in range(rng.choice([1, 1, 2, 3])):
             qs.append("%s,%d,%d" % (hexs(rng.choice(names)), rng.choice([1, 28, 1, 28, 255, 12, 33]), rng.randrange(2)))
-        lines.append("DELIVER %s|%d|%d|0|0|%s|" % (rng.choice(srcs), rng.choice([5353, 5353, 49152, 1]), rng.randrange(65536), ";".join(qs)))
+        # a query may carry records (known answers, RFC 6762 7.1): the property promises an answer to every question
+        # for the hostname regardless, so stale or correct address records for it in the query must change nothing
+        recs = []
+        if rng.random() < 0.35:
+            for _ in range(rng.choice([1, 1, 2])):
+                nm = rng.choice([cand(local, m.k), cand(local, m.k), "other" + LOCAL])
+                recs.append(arec(nm, rng.choice([1, 28]), rng.choice(["4:1", "4:3232235777", "6:" + "00" * 15 + "09", "6:fe80" + "00" * 13 + "01"])))
+        lines.append("DELIVER %s|%d|%d|0|0|%s|%s" % (rng.choice(srcs), rng.choice([5353, 5353, 49152, 1]), rng.randrange(65536), ";".join(qs), ";".join(recs)))
 
     for _ in range(nops):
         r = rng.random()
@@ -162,7 +169,7 @@ def explore(ctx, focus, attribute, replay=None, search_boost=False):
     res["interface_table"] = iftok
     res["rule"] = ("scripts over 0..3 re-probe cycles (virtual hours): conflicting A/AAAA responses for the current, previous, next and "
                    "unrelated candidates, same-name non-address records, queries (A, AAAA, ANY, PTR, SRV; hostname, other candidates, "
-                   "foreign and upper-cased names) from sources inside every local subnet, at subnet boundaries, just outside and of "
+                   "foreign and upper-cased names; a third of them carrying known-answer A/AAAA records for the hostname or another name) from sources inside every local subnet, at subnet boundaries, just outside and of "
                    "the other family, port 5353 / ephemeral, advances to deadline-1 / before / at / after the 2 s and 30 min deadlines, "
                    "late firings; host names incl. '.' and multi-byte; non-trivial = more than the initial probe; distinct = distinct scripts")
     return res
